@@ -44,7 +44,7 @@ func runTopology(rec *mon.Recorder, c int) {
 			parts = 3 + rng.Intn(5)
 		}
 	}
-	wide := c%10 == 7
+	wide := c%10 == 7 || c%10 == 3
 	if wide {
 		// a dataset of dozens of single-replica partitions on three nodes: every node asks for a few dozen remote
 		// partitions at once (more than any bound on concurrent lookups)
@@ -405,7 +405,11 @@ func runTopology(rec *mon.Recorder, c int) {
 				return true
 			})
 			cl.Crash(gone.Idx)
-			for s := 0; s < 8*len(left); s++ {
+			calls := 8 * len(left)
+			if wide {
+				calls = 30 * len(left)
+			}
+			for s := 0; s < calls; s++ {
 				n := left[s%len(left)]
 				sctx, cancel := context.WithTimeout(ctx, 3*time.Second)
 				l, b, err := n.Dataset(dsId).SizeInfo(sctx)
